@@ -324,13 +324,25 @@ func c03Marshal(c *ctx, d docSpec, how string) {
 }
 
 // Include histories
-func c03Include(c *ctx, d docSpec, incs []resSpec, how string) {
+// altSpec is the named type with one more attribute: a different definition
+// under the same name.
+func altSpec(d docSpec, tn string) typeSpec {
+	t := *d.sc.spec(tn)
+	t.fields = append(append([]fieldSpec{}, t.fields...), fieldSpec{name: "zz-extra", code: 1})
+	return t
+}
+
+func c03Include(c *ctx, d docSpec, incs []resSpec, alts []bool, how string) {
 	var obs, key, detail string
 	p, pv := guard(func() {
 		doc, _ := d.build()
 		doc.Included = nil
-		for _, rs := range incs {
-			doc.Include(d.buildRes(rs))
+		for i, rs := range incs {
+			if alts[i] {
+				doc.Include(buildRes(altSpec(d, rs.tn), rs.wrapped, rs.ops))
+			} else {
+				doc.Include(d.buildRes(rs))
+			}
 		}
 		var it []string
 		seen := map[[2]string]bool{}
@@ -362,10 +374,16 @@ func c03Include(c *ctx, d docSpec, incs []resSpec, how string) {
 	d2 := d
 	d2.included = nil
 	var gi []string
-	for _, rs := range incs {
-		gi = append(gi, d.gRes(rs))
+	nalt := 0
+	for i, rs := range incs {
+		if alts[i] {
+			nalt++
+			gi = append(gi, fmt.Sprintf("(%s, %s)", gNewRes(altSpec(d, rs.tn), rs.wrapped), gOps(rs.ops)))
+		} else {
+			gi = append(gi, d.gRes(rs))
+		}
 	}
-	feature := fmt.Sprintf("%s primary=%d includes=%d", d.dataKind, min(len(d.data), 5), min(len(incs), 8))
+	feature := fmt.Sprintf("%s primary=%d includes=%d othertypedef=%d", d.dataKind, min(len(d.data), 5), min(len(incs), 8), min(nalt, 2))
 	c.count("include:" + d.dataKind)
 	k := c.add("include", d2.desc()+fmt.Sprintf(" + %d Include calls", len(incs)), feature, len(incs) == 0,
 		fmt.Sprintf("(run_include %s %s)", d2.gallina(), gList(gi)), obs, key, detail)
@@ -382,7 +400,7 @@ func runC03(c *ctx) {
 		// IDs and type names that JSON must escape
 		if c.r.chance(1, 3) {
 			for j := range d.data {
-				d.data[j].ops[0] = setOp{"id", pick(c.r, []string{"a\"b", "a\\b", "</script>", " ", "x\ty", "é", "c\x01d", "e\x7ff", "g\vh\a"}) + fmt.Sprint(j)}
+				d.data[j].ops[0] = setOp{"id", pick(c.r, []string{"a\"b", "a\\b", "</script>", " ", "x\ty", "é", "c\x01d", "e\x7ff", "g\vh\a", "\ufffd"}) + fmt.Sprint(j)}
 			}
 		}
 		c03Marshal(c, d, "random")
@@ -398,8 +416,11 @@ func runC03(c *ctx) {
 		}
 		d.errors = nil
 		var incs []resSpec
+		var alts []bool
 		k := c.r.intn(9)
 		for j := 0; j < k; j++ {
+			// the same name and ID under another definition of the type
+			alts = append(alts, c.r.chance(1, 4))
 			switch {
 			case len(d.data) > 0 && c.r.chance(1, 3):
 				incs = append(incs, pick(c.r, d.data)) // a primary-data resource
@@ -409,7 +430,7 @@ func runC03(c *ctx) {
 				incs = append(incs, randResSpec(c.r, d.sc, pick(c.r, []string{"small", "other", "alltypes"}), pick(c.r, []string{"1", "2", "p0", "p1", "a b", "a"})))
 			}
 		}
-		c03Include(c, d, incs, "random")
+		c03Include(c, d, incs, alts, "random")
 	}
 }
 
